@@ -30,9 +30,19 @@ HasMap(s, env, fuel) ==
 (* Allocation bound.  Slack = 64 KiB for requests not sized by the data.  A hash map reserves
    buckets in powers of two (up to ~2.3 x the guarded size): 3 x limit where a map can occur.   *)
 Slack == 65536
-Bound(limit, hasmap) ==
+CodecSlack == 16777216     \* working memory of the decompressors (bzip2: 4 x 900 kB block, ...), not sized by a declared length
+Bound(limit, hasmap, codec) ==
   IF limit >= 500000000 THEN 2147483647
-  ELSE IF hasmap THEN 3 * limit + Slack ELSE limit + Slack
+  ELSE (IF hasmap THEN 3 * limit ELSE limit) + (IF codec THEN CodecSlack ELSE Slack)
+
+(* a record that contains itself through record fields only has no finite value and no finite encoding *)
+RECURSIVE RecOnlyReach(_, _, _)
+RecOnlyReach(s, env, seen) ==
+  CASE s.k = "record" ->
+         \E i \in 1..Len(s.fields) : RecOnlyReach(s.fields[i].type, env, seen \cup {s.name})
+    [] s.k = "ref" -> s.name \in seen \/ (s.name \in DOMAIN env /\ RecOnlyReach(env[s.name], env, seen \cup {s.name}))
+    [] OTHER -> FALSE
+Uninhabited(s) == RecOnlyReach(s, Defs(s), {})
 
 (***************************************************************************)
 (* Known deviations (each predicate pins the node kind, the position and   *)
@@ -57,13 +67,25 @@ DatumFails(e) ==
              "C06:decoders-disagree")
      \cup If(~(P.ok /\ ~g.ok /\ ~g.panic) \/ e.limit < 500000000, "C02:rejected-spec-legal")
 
+(* Known finding C05-uninhabited-record-recursion: decoding under a record that contains itself through
+   record fields only recurses without consuming input until the stack overflows (process abort). *)
+Dev_UninhabitedRecursion(e) ==
+  /\ "C05-uninhabited-record-recursion" \in KnownIds
+  /\ e.entry = "datum" /\ e.outcome = "abort" /\ Uninhabited(e.s)
+
 Judge(e) ==
   IF e.outcome = "schema-not-accepted" THEN [fail |-> {}, known |-> {}, drift |-> {"schema-not-accepted"}]
+  ELSE IF e.entry = "datum" /\ Uninhabited(e.s)
+  THEN IF e.outcome \in {"ok", "err"} THEN [fail |-> {}, known |-> {}, drift |-> {}]
+       ELSE IF Dev_UninhabitedRecursion(e)
+       THEN [fail |-> {}, known |-> {"C05-uninhabited-record-recursion|C05:" \o e.outcome}, drift |-> {}]
+       ELSE [fail |-> {"C05:" \o e.outcome}, known |-> {}, drift |-> {}]
   ELSE
   LET hasmap == IF e.entry \in {"datum", "single"} THEN HasMap(e.s, Defs(e.s), 3) ELSE TRUE
+      codec  == e.entry \notin {"datum", "single"}
       fail ==
         If(e.outcome \in {"ok", "err"}, "C05:" \o e.outcome)
-        \cup If(e.largest <= Bound(e.limit, hasmap), "C05:allocation-above-limit")
+        \cup If(e.largest <= Bound(e.limit, hasmap, codec), "C05:allocation-above-limit")
         \cup (IF e.entry = "datum" /\ e.outcome \in {"ok", "err"} THEN DatumFails(e) ELSE {})
   IN [fail |-> fail, known |-> {}, drift |-> {}]
 
